@@ -8,6 +8,8 @@ import (
 
 	"github.com/sergeii/swat4master/verifharness/internal/core"
 	"github.com/sergeii/swat4master/verifharness/internal/reputil"
+	"github.com/sergeii/swat4master/verifharness/internal/ucops"
+	"github.com/sergeii/swat4master/verifharness/internal/world"
 )
 
 func init() {
@@ -36,6 +38,53 @@ func gen(rng *rand.Rand, tier core.Tier, emit core.Emit) {
 		}
 		emit("hist", reputil.JoinOps(ops)...)
 	}
+	// the discovery pipeline in between: a heartbeat, then what the prober did with its port probe (success, transient
+	// failure, final failure — which leaves "no port"), a details probe, then the next heartbeats of the same server
+	for i := 0; i < n/3; i++ {
+		ip := reputil.PickIPs(rng, 1, false)[0]
+		id := ids[rng.Intn(2)]
+		r := reputil.RandomReport(rng, id, "10480", "10481", 0)
+		addr := ip + ":10480"
+		ops := [][]string{reputil.Dg(ip, reputil.SrcPort(rng), r.Payload(rng))}
+		for k := 0; k < 1+rng.Intn(3); k++ {
+			var uc string
+			switch rng.Intn(5) {
+			case 0:
+				uc = fmt.Sprintf("probe|%s|10480|1|2|2|fail", addr) // the port probe's last attempt fails: no_port
+			case 1:
+				uc = fmt.Sprintf("probe|%s|10480|1|0|2|fail", addr) // transient failure: retry
+			case 2:
+				uc = fmt.Sprintf("probe|%s|10480|1|0|2|ok:10481:%x:%d", addr, "probed", rng.Intn(16))
+			case 3:
+				uc = fmt.Sprintf("probe|%s|10481|0|%d|2|fail", addr, rng.Intn(3))
+			default:
+				uc = "pop|3|fail"
+			}
+			ops = append(ops, []string{"uc", uc})
+			if rng.Intn(2) == 0 {
+				ops = append(ops, reputil.Adv(rng))
+			}
+			r2 := reputil.RandomReport(rng, id, "10480", "10481", 0)
+			ops = append(ops, reputil.Dg(ip, reputil.SrcPort(rng), r2.Payload(rng)))
+			if rng.Intn(3) == 0 {
+				ops = append(ops, reputil.Dg(ip, reputil.SrcPort(rng), reputil.Keepalive(id)))
+			}
+		}
+		emit("hist", reputil.JoinOps(ops)...)
+	}
+	// a report whose storage fails at one command: "acknowledged ⇒ registered and bound" must survive every placement
+	for c := 0; c <= 4; c++ {
+		for k := 0; k < 11; k++ {
+			for _, ev := range []string{"yb", "ya"} {
+				pre := ""
+				for i := 0; i < c; i++ {
+					pre += "c0,"
+				}
+				emit("ucf", "-", fmt.Sprintf("report|1.1.1.1:10480|10481|00000001|%x|3", "srv"), fmt.Sprintf("%s%s0:%d,e", pre, ev, k))
+				emit("ucf", fmt.Sprintf("report|1.1.1.1:10480|10481|00000009|%x|1", "old"), fmt.Sprintf("report|1.1.1.1:10480|10481|00000001|%x|3", "srv"), fmt.Sprintf("%s%s0:%d,e", pre, ev, k))
+			}
+		}
+	}
 	// histories of 1..40 datagrams, 1..3 sources
 	for i := 0; i < n; i++ {
 		ips := reputil.PickIPs(rng, 1+rng.Intn(3), rng.Intn(10) == 0)
@@ -44,6 +93,13 @@ func gen(rng *rand.Rand, tier core.Tier, emit core.Emit) {
 }
 
 func exec(op string, args []string) []string {
+	if op == "ucf" && len(args) == 3 {
+		var out []string
+		if txt, ok := core.Guard(func() { out = ucops.RunUC(world.DefaultOptions(), args[0], args[1], args[2]) }); !ok {
+			return []string{fmt.Sprintf("harness-panic:%s", txt)}
+		}
+		return out
+	}
 	if op != "hist" {
 		return []string{"bad-op"}
 	}
